@@ -22,6 +22,8 @@ pub open spec fn uplink_post(o: &SrtlaConnection, n: &SrtlaConnection, data: Seq
     &&& (t is Some && !is_reg_type(t.unwrap()) ==> n.last_received == Some(now))
     &&& (t == Some(0x9202u16) ==> n.connected && n.last_received == Some(now) && n.phase == (LinkPhase::Warming { rtt_probes: 0, entered_ms: now })
             && n.in_flight_packets == 0 && n.packet_log@.len() == 0 && n.window == o.window
+            // REG3 neither arms an RTT probe nor moves the keepalive cadence clock nor counts as delivery proof
+            && n.rtt == o.rtt && n.last_keepalive_sent == o.last_keepalive_sent && n.last_ack_or_rtt_sample_ms == o.last_ack_or_rtt_sample_ms
             // REG3 restarts the back-off (failure count) but never the 5 s retry timer
             && n.reconnection.last_reconnect_attempt_ms == o.reconnection.last_reconnect_attempt_ms && n.reconnection.reconnect_failure_count == 0
             && n.reconnection.connection_established_ms == (if o.reconnection.connection_established_ms == 0 { now } else { o.reconnection.connection_established_ms }))
@@ -53,10 +55,10 @@ def add_uplink(u):
                    'r is Ok',
                    C('C09.uplink.forwards_exactly_the_non_internal_datagrams_unchanged', 'vec_views(r->Ok_0.forward_to_client@) =~= expected_forward(data@)'),
                    C('C07.uplink.connected_only_on_reg3_received_on_this_uplink', '!old(conn).connected && final(conn).connected ==> %s == Some(0x9202u16)' % T),
-                   C('C07.uplink.reg_err_disconnects', '%s == Some(0x9210u16) ==> !final(conn).connected && final(conn).last_received is None' % T),
+                   C('C07+C17.uplink.reg_err_disconnects', '%s == Some(0x9210u16) ==> !final(conn).connected && final(conn).last_received is None' % T),
                    C('C09+C13.uplink.delivery_proof_only_from_an_answered_keepalive',
                      'final(conn).last_ack_or_rtt_sample_ms != old(conn).last_ack_or_rtt_sample_ms ==> %s == Some(0x9000u16) && old(conn).rtt.waiting_for_keepalive_response && spec_keepalive_ts(data@) is Some' % T),
-                   C('C07+C08+C09+C10.uplink.liveness_stamp_and_clean_rejoin', 'exists|now: u64| #[trigger] uplink_post(old(conn), final(conn), data@, now)'),
+                   C('C04+C07+C08+C09+C10+C14.uplink.liveness_stamp_and_clean_rejoin', 'exists|now: u64| #[trigger] uplink_post(old(conn), final(conn), data@, now)'),
                    C('C02+C09.uplink.ack_nak_lists_are_exactly_the_parsed_lists',
                      'r->Ok_0.ack_numbers@ =~= (if %s == Some(0x8002u16) && spec_parse_srt_ack(data@) is Some { seq![spec_parse_srt_ack(data@).unwrap()] } else { Seq::<u32>::empty() })\n'
                      '            && r->Ok_0.nak_numbers@ =~= (if %s == Some(0x8003u16) { spec_parse_srt_nak(data@) } else { Seq::<u32>::empty() })\n'
@@ -74,10 +76,10 @@ def add_uplink(u):
                },
                splices=[
                    ('return Ok(incoming);', '''proof {
-                assert(uplink_post(old(conn), conn, data@, now));  // @ob C07+C08+C09+C10.uplink.liveness_stamp_and_clean_rejoin
+                assert(uplink_post(old(conn), conn, data@, now));  // @ob C04+C07+C08+C09+C10+C14.uplink.liveness_stamp_and_clean_rejoin
             }''', 'before'),
                    ('    Ok(incoming)\n}', '''    proof {
-        assert(uplink_post(old(conn), conn, data@, now));  // @ob C07+C08+C09+C10.uplink.liveness_stamp_and_clean_rejoin
+        assert(uplink_post(old(conn), conn, data@, now));  // @ob C04+C07+C08+C09+C10+C14.uplink.liveness_stamp_and_clean_rejoin
     }
     Ok(incoming)
 }''', 'replace'),
